@@ -172,3 +172,14 @@ package actionlint
 //@   loop "i < e - s":
 //@     invariant 0 <= i && blen(b) + (e - s - i) + len(src) - e == len(src0)
 //@     invariant 0 <= s && s <= e && e <= len(src)
+
+// C20: what the external tools read on their standard input is the sanitised script - the text returned by
+// sanitizeExpressionsInScript for the script of the step (`sanitized` names that text: the function reads
+// nothing but its argument) - for pyflakes as it is, for shellcheck after the `set -e...` line
+//@ spec sanitized(s: string): string
+//@ func sanitizeExpressionsInScript
+//@   ensures result == sanitized(src0)
+//@   trusted `sanitized` is the name of this function's result (it depends on its argument only)
+//@ func (*RulePyflakes).runPyflakes
+//@   props C20
+//@   at_call (*externalCommand).run: stdin == sanitized(src0)
